@@ -342,7 +342,7 @@ func c20RaftProperty(t *rapid.T) {
 		r.lag = time.Duration(rapid.SampledFrom([]int{0, 0, 15, 40}).Draw(t, fmt.Sprintf("lag%d", i))) * time.Millisecond
 		if noCrash && size == 3 {
 			// slow executors: blocks delivered from a replica's own log are still queued when a snapshot arrives
-			r.lag = time.Duration(rapid.SampledFrom([]int{15, 40, 80}).Draw(t, fmt.Sprintf("slowLag%d", i))) * time.Millisecond
+			r.lag = time.Duration(rapid.SampledFrom([]int{15, 40, 80, 150}).Draw(t, fmt.Sprintf("slowLag%d", i))) * time.Millisecond
 		}
 		net.nodes[r.id] = r
 		reps = append(reps, r)
@@ -369,7 +369,7 @@ func c20RaftProperty(t *rapid.T) {
 	}
 	keys := []*sim.Key{sim.KeyFor("ord-a"), sim.KeyFor("ord-b")}
 	next := map[int]uint64{}
-	restarts, leaderCrashes := 0, 0
+	restarts, leaderCrashes, deepPartitions := 0, 0, 0
 	tsSeq := int64(0)
 	tsMode := rapid.IntRange(0, 2).Draw(t, "tsMode") // 0 increasing with the nonce, 1 decreasing, 2 arbitrary
 	skippedAfterRestart := 0
@@ -382,6 +382,35 @@ func c20RaftProperty(t *rapid.T) {
 			inconclusive = "no leader within 15s"
 			break
 		}
+		submit := func(cnt int) {
+			for i := 0; i < cnt; i++ {
+				a := rapid.IntRange(0, 1).Draw(t, "acct")
+				// the transaction's own timestamp orders the pool's ready index; clients' clocks need not agree with nonces
+				tsSeq++
+				ts := int64(100000) + tsSeq
+				switch tsMode {
+				case 1:
+					ts = int64(100000) - tsSeq
+				case 2:
+					ts = int64(100000) + int64(rapid.IntRange(-20, 20).Draw(t, "tsJitter"))
+				}
+				tx := orderTxTS(keys[a], next[a], 0, ts)
+				done := make(chan error, 1)
+				n := entry.node
+				go func() { done <- n.Prepare(tx) }()
+				select {
+				case err := <-done:
+					if err == nil {
+						next[a]++
+					}
+				case <-time.After(3 * time.Second):
+					// the node stopped serving; the transaction may or may not have entered its pool
+					next[a]++
+				}
+			}
+		}
+		cnt := 0
+		healEarly := false
 		if noCrash && size == 3 {
 			// partition episodes: a follower is cut off while the others go on ordering (more blocks than the snapshot
 			// count, so that the leader compacts its log), then it is connected again and has to catch up from a snapshot
@@ -398,41 +427,34 @@ func c20RaftProperty(t *rapid.T) {
 					}
 				}
 				fid := followers[rapid.IntRange(0, len(followers)-1).Draw(t, "isolated")]
+				deep := rapid.Bool().Draw(t, "deepPartition")
+				if deep {
+					// blocks ordered just before the cut are still queued at the (slow) executor of the replica that is
+					// cut off; the others then order enough blocks to compact their logs past it
+					k := rapid.IntRange(2, 6).Draw(t, "txsBeforePartition")
+					submit(k)
+					cnt += k
+				}
 				net.mu.Lock()
 				net.isolated[fid] = true
 				net.partitions++
 				net.mu.Unlock()
-				ops = append(ops, fmt.Sprintf("round %d: replica %d is partitioned from the others", rd, fid))
-			}
-		}
-		cnt := rapid.IntRange(1, 5).Draw(t, "txs")
-		if noCrash && size == 3 && len(net.isolated) > 0 {
-			cnt = rapid.IntRange(4, 8).Draw(t, "txsDuringPartition")
-		}
-		for i := 0; i < cnt; i++ {
-			a := rapid.IntRange(0, 1).Draw(t, "acct")
-			// the transaction's own timestamp orders the pool's ready index; clients' clocks need not agree with nonces
-			tsSeq++
-			ts := int64(100000) + tsSeq
-			switch tsMode {
-			case 1:
-				ts = int64(100000) - tsSeq
-			case 2:
-				ts = int64(100000) + int64(rapid.IntRange(-20, 20).Draw(t, "tsJitter"))
-			}
-			tx := orderTxTS(keys[a], next[a], 0, ts)
-			done := make(chan error, 1)
-			n := entry.node
-			go func() { done <- n.Prepare(tx) }()
-			select {
-			case err := <-done:
-				if err == nil {
-					next[a]++
+				ops = append(ops, fmt.Sprintf("round %d: replica %d is partitioned from the others (deep=%v, %d transactions just before) @%dms", rd, fid, deep, cnt, time.Since(processStart).Milliseconds()))
+				k := rapid.IntRange(4, 8).Draw(t, "txsDuringPartition")
+				if deep {
+					if k = (2*snap + 1) * batchSize; k > 21 {
+						k = 21
+					}
+					healEarly = true
+					deepPartitions++
 				}
-			case <-time.After(3 * time.Second):
-				// the node stopped serving; the transaction may or may not have entered its pool
-				next[a]++
+				submit(k)
+				cnt += k
 			}
+		}
+		if cnt == 0 {
+			cnt = rapid.IntRange(1, 5).Draw(t, "txs")
+			submit(cnt)
 		}
 		ops = append(ops, fmt.Sprintf("round %d: %d transactions via replica %d (next nonces %v) @%dms", rd, cnt, entry.id, next, time.Since(processStart).Milliseconds()))
 		// leader-crash episode: the replica that accepted (and proposed) the transactions goes down shortly afterwards,
@@ -441,6 +463,16 @@ func c20RaftProperty(t *rapid.T) {
 		if leaderCrash {
 			time.Sleep(time.Duration(rapid.IntRange(5, 120).Draw(t, "shortWaitMs")) * time.Millisecond)
 		} else {
+			if healEarly {
+				// connected again while the executor of the replica that was cut off may still be busy
+				time.Sleep(time.Duration(rapid.IntRange(10, 80).Draw(t, "healAfterMs")) * time.Millisecond)
+				net.mu.Lock()
+				for id := range net.isolated {
+					delete(net.isolated, id)
+				}
+				net.mu.Unlock()
+				ops = append(ops, fmt.Sprintf("round %d: partition healed @%dms", rd, time.Since(processStart).Milliseconds()))
+			}
 			time.Sleep(time.Duration(rapid.IntRange(60, 250).Draw(t, "waitMs")) * time.Millisecond)
 		}
 		if leaderCrash || (!noCrash && rapid.IntRange(0, 2).Draw(t, "crash") == 0) {
@@ -546,6 +578,9 @@ func c20RaftProperty(t *rapid.T) {
 	}
 	if leaderCrashes > 0 {
 		cls = append(cls, "raft-accepting-leader-crashed")
+	}
+	if deepPartitions > 0 {
+		cls = append(cls, "raft-deep-partition-with-busy-executor")
 	}
 	_ = skippedAfterRestart
 	st.Case(nt, cls...)
